@@ -191,8 +191,10 @@ def time_parts(c):
     def fof(th, t):
         return f0 + t * f1 + F @ th
 
-    def ic(th):
-        return u0 + C @ th
+    def ic(th, t=0.0):
+        # the form returns (operator, source, initial condition) for a time t; the initial condition of the run is the one
+        # the form gives at the first time level
+        return (u0 + C @ th) * (1.0 + 0.5 * t)
     return Aof, fof, ic
 
 
@@ -233,13 +235,13 @@ def run_time(c, rec):
 
     def form(p, t):
         calls.append(float(t))
-        return Aof(p, t), fof(p, t), ic(p)
+        return Aof(p, t), fof(p, t), ic(p, t)
     pde = must(lambda: cuqi.pde.TimeDependentLinearPDE(form, times, **kwargs), "constructing the PDE")
     pde.assemble(th)
     U, info = must(lambda: pde.solve(), "solve")
     U = np.asarray(U, dtype=float)
     require(U.shape == (n, nt), "solution must have one column per time level", shape=U.shape)
-    require(close(U[:, 0], ic(th), 1e-12), "level 0 is not the initial condition")
+    require(close(U[:, 0], ic(th, times[0]), 1e-12), "level 0 is not the initial condition the form gives at the first time level")
     for k in range(nt - 1):
         dt = times[k + 1] - times[k]
         if c["method"] == "forward_euler":
